@@ -57,11 +57,14 @@ impl Check for C08 {
     fn isolated() -> bool {
         true
     }
+    fn announces_phase() -> bool {
+        true
+    }
     fn rule() -> String {
         "Mutation scripts over valid seed files (small files from the writer generator, from the independent encoder under random layouts, and \
          small bundled files): file header fields (physical length, XML offset/length, page size) set to boundary and extreme values; XML numbers \
          replaced by NaN / inf / -1 / 2^63 / 2^64 / 1e400 / empty / garbage; attributes recordCount, fileOffset, length, minimum, maximum, scale, \
-         offset, precision, type rewritten; elements deleted / duplicated; maximum := minimum on some or all records; thousands of records added; \
+         offset, precision, type rewritten; elements deleted / duplicated, containers emptied; maximum := minimum on some or all records; thousands of records added; \
          deep nesting; garbage inserted; section header fields (id, length, data and index offsets), packet header fields (type, flags, length, \
          stream count, stream lengths), blob header fields; payload bit flips; truncation to page and non-page multiples, extension. 4 in 5 scripts \
          re-seal every page checksum so the mutation reaches the parsers. Every reading entry point (validate_crc, raw_xml, new, getters, raw \
@@ -88,6 +91,7 @@ impl Check for C08 {
                 return v;
             }
         };
+        crate::kit::phase("code-under-test");
         v.label(if case.script.reseal { "resealed" } else { "unsealed" });
         for m in &case.script.muts {
             let name = format!("{m:?}");
